@@ -123,7 +123,7 @@ def run(c):
               "(2b) evaluator hook inside real multi-threaded searches run under the cooperative scheduler: every k-th evaluation (k in {2,5,11,30}) is recomputed on a copy with a brand-new "
               "evaluator and the same contempt; (3) the same seeded stream of positions through every SIMD build: digests per 1000 positions must agree. distinct_nontrivial = distinct walks + distinct symmetry positions")
     c.extra.update(networks=NETS, simd_variants=variants, walks=st["inc"].get("walks", 0), null_edits=st["inc"].get("null_edits", 0), reconnects=st["inc"].get("reconnects", 0),
-                   assignments=st["inc"].get("assignments", 0), takebacks=st["inc"].get("takebacks", 0), castlings=st["inc"].get("castlings", 0),
+                   assignments=st["inc"].get("assignments", 0), clock_edits=st["inc"].get("clock_edits", 0), takebacks=st["inc"].get("takebacks", 0), castlings=st["inc"].get("castlings", 0),
                    capture_promotions=st["inc"].get("capture_promotions", 0), king_moves=st["inc"].get("king_moves", 0),
                    flip_checks=st["sym"].get("flip_checks", 0), mirror_checks=st["sym"].get("mirror_checks", 0),
                    endgame_rule_material_positions=st["sym"].get("endgame_rule_material_positions", 0), stream_blocks_compared=blocks_compared,
